@@ -64,7 +64,22 @@ func strConverter(dec *Decoder, o interface{}, p interface{}) {
 	case fmt.GoStringer:
 		*(*string)(reflect2.PtrOf(p)) = o.GoString()
 	default:
-		*(*string)(reflect2.PtrOf(p)) = fmt.Sprint(o)
+		kind := reflect.Invalid
+		if t := reflect.TypeOf(o); t != nil {
+			kind = t.Kind()
+		}
+		switch kind {
+		case reflect.Map, reflect.Slice, reflect.Array, reflect.Struct, reflect.Ptr,
+			reflect.Interface, reflect.Func, reflect.Chan, reflect.UnsafePointer:
+			// a referenced list, map or object may contain itself (an object of an unknown
+			// class is a map that is entered in the reference table before its fields are
+			// read): printing it would recurse until the stack is exhausted.
+			if dec.Error == nil {
+				dec.Error = DecodeError("hprose/io: can not convert a reference to " + reflect.TypeOf(o).String() + " to string")
+			}
+		default:
+			*(*string)(reflect2.PtrOf(p)) = fmt.Sprint(o)
+		}
 	}
 }
 
